@@ -5,6 +5,7 @@ import json, os, shutil, subprocess, sys, re, signal
 signal.signal(signal.SIGTERM, lambda *a: sys.exit(143))
 src, name, pid = sys.argv[1], sys.argv[2], sys.argv[3]
 wt = "/tmp/refcheck_" + name
+CHK = os.environ.get("KEEPSEED_VERIF", "/verif")   # where the check runs (a clone keeps /verif free)
 def sh(cmd, cwd=None, env=None, timeout=3000):
     p = subprocess.run(cmd, shell=True, cwd=cwd, capture_output=True, text=True, env=env, timeout=timeout)
     return p.returncode, (p.stdout + p.stderr)
@@ -18,24 +19,33 @@ try:
     rc, o3 = sh("/venv/bin/python -m pytest -q -p no:cacheprovider --timeout=900 tests/ 2>&1 | tail -1", cwd=wt, env=env)
     suite_ok = bool(re.search(r"4 failed, 1822 passed", o3))
     print("suite:", o3.strip())
-    rc, o = sh("./check %s --tier quick" % pid, cwd="/verif", env=dict(os.environ, PYCOIN_REPO=wt))
+    eq = os.path.abspath(os.path.join(src, "equiv.py"))
+    equiv_ok = None
+    if os.path.exists(eq):
+        rce, oe = sh("/venv/bin/python %s" % eq, cwd=wt, env=env, timeout=1500)
+        equiv_ok = rce == 0
+        print("equiv.py exit", rce, oe.strip().split("\n")[-1][:200] if oe.strip() else "")
+    if not suite_ok or equiv_ok is False:
+        print("NOT KEPT (suite changed or the author's own equivalence test fails)")
+        sys.exit(1)
+    rc, o = sh("./check %s --tier quick" % pid, cwd=CHK, env=dict(os.environ, PYCOIN_REPO=wt))
 finally:
     sh("git -C /repo worktree remove --force %s" % wt)
-    sh("git checkout -- lean/Pycoin/Gen evidence/%s.json" % pid, cwd="/verif")
+    sh("git checkout -- lean/Pycoin/Gen evidence/%s.json" % pid, cwd=CHK)
 lines = [l for l in o.split("\n") if l.startswith("VIOLATION")]
 replays = []
 for l in lines[:3]:
     m = re.search(r"replay=(\S+)", l)
-    if m and os.path.exists("/verif/" + m.group(1)):
-        r = json.load(open("/verif/" + m.group(1)))
+    if m and os.path.exists(CHK + "/" + m.group(1)):
+        r = json.load(open(CHK + "/" + m.group(1)))
         replays.append({"what": r.get("what"), "input": str(r.get("input"))[:400], "kind": r.get("kind"),
                         "expected": str(r.get("expected"))[:200], "observed": str(r.get("observed"))[:200]})
-sh("rm -f /verif/replays/*.json")
+sh("rm -f %s/replays/*.json" % CHK)
 dst = "/verif/refactors/" + name
 os.makedirs(dst, exist_ok=True)
 shutil.copy(os.path.join(src, "patch.diff"), dst)
 meta = json.load(open(os.path.join(src, "meta.json")))
-meta.update({"property": pid, "suite_unchanged": suite_ok,
+meta.update({"property": pid, "suite_unchanged": suite_ok, "equiv_test_passed": equiv_ok,
              "check_quick": {"exit": rc, "violation_lines": lines[:5], "replays": replays, "summary": o.strip().split("\n")[-1][:300]}})
 json.dump(meta, open(os.path.join(dst, "meta.json"), "w"), indent=1)
 print("check exit", rc, len(lines), "violation lines", "" if rc == 0 else json.dumps(replays)[:600])
